@@ -4,7 +4,7 @@ Theorems about the models `DSymVerif/Model/DSet.lean`, `DSymVerif/Model/DSym.lea
 sizes and dimensions.  Validity predicates (`ValidSet`, `ValidPartialSet`, `FarCommute`,
 `ValidSym`) are in `Proofs/DSetBasic.lean`.
 -/
-import DSymVerif.Proofs.DSetOrbit
+import DSymVerif.Proofs.DSetSym
 
 namespace DSymVerif.C02
 open DSymVerif.DS
@@ -143,5 +143,88 @@ theorem r_nonadjacent (s : DSymData) (h : ValidSet s.dset) (hf : FarCommute s.ds
 example : ValidSet (DSymData.ofSimple ex2).dset ∧ FarCommute (DSymData.ofSimple ex2).dset ∧
     (0 + 1 < 2 ∧ 0 ≤ (DSymData.ofSimple ex2).dim ∧ 2 ≤ (DSymData.ofSimple ex2).dim) :=
   ⟨ex2_valid, ex2_far, by decide⟩
+
+/-! ### 6. `collect_orbits`, and table-based = generic on valid symbols -/
+
+/-- `collect_orbits` on a complete involutive D-set (any size, any dimension): row `i` of the
+    index table has an entry for every chamber, the entry points into `rs`, the `rs` entry is the
+    least period of the chamber under `op (i+1) ∘ op i` — which is what the generic `r` and the
+    Spec's `orbitLen` return — and two chambers get the same orbit number exactly when they are
+    joined by a path of `op i` / `op (i+1)` steps (`Orb2`, the inductive closure). Different rows
+    use different numbers. -/
+theorem collectOrbits_spec (s : DSetData) (h : ValidSet s) (i : Nat) (hi : i < s.dim) :
+    let o := collectOrbits s
+    let ix := fun (i d : Nat) => (o.index.getD i #[]).getD d 0
+    o.index.size = s.dim ∧ (o.index.getD i #[]).size = s.size + 1 ∧
+    (∀ d, 1 ≤ d → d ≤ s.size →
+      ix i d < o.rs.size ∧
+      IsLeastPeriod s i (i + 1) d (o.rs.getD (ix i d) 0) ∧
+      s.viewSimple.r i (i + 1) d = .ok (some (o.rs.getD (ix i d) 0)) ∧
+      ∀ v, SpecC02.G.orbitLen (s.toG v) i (i + 1) d = some (o.rs.getD (ix i d) 0)) ∧
+    (∀ d e, 1 ≤ d → d ≤ s.size → 1 ≤ e → e ≤ s.size → (ix i d = ix i e ↔ Orb2 s i (i + 1) d e)) ∧
+    (∀ i' d e, i' < i → 1 ≤ d → d ≤ s.size → 1 ≤ e → e ≤ s.size → ix i' d < ix i e) := by
+  intro o ix
+  have hrows := collectOrbits_rows h
+  have hrow := hrows.2 i hi
+  refine ⟨hrows.1, hrow.size, ?_, hrow.iff, ?_⟩
+  · intro d h1 h2
+    have hi0 : i ≤ s.dim := Nat.le_of_lt hi
+    obtain ⟨k, _, _, hr, _, hp, hmin, hspec⟩ := r_generic_eq_orbitLen s h i (i + 1) d hi0 hi h1 h2
+    have hk : IsLeastPeriod s i (i + 1) d k := ⟨by omega, hp, hmin⟩
+    have := (hrow.per d h1 h2).unique hk
+    refine ⟨hrow.lt d h1 h2, hrow.per d h1 h2, ?_, ?_⟩
+    · rw [hr]; exact congrArg (fun k => Outcome.ok (some k)) this.symm
+    · intro v; rw [hspec v]; exact congrArg some this.symm
+  · intro i' d e hi' hd1 hd2 he1 he2
+    exact collectOrbits_rows_lt h hi' hi hd1 hd2 he1 he2
+
+example : ValidSet ex2 ∧ 0 < ex2.dim := ⟨ex2_valid, by decide⟩
+
+/-- **All representations agree**: on a valid symbol the table-based `r` of `PartialDSym` and
+    `SimpleDSym` is the generic (orbit-walking) `r` of the underlying D-set, for every in-range
+    argument — adjacent, equal and far index pairs, in either order. -/
+theorem representations_agree (s : DSymData) (h : ValidSym s) (i j d : Nat)
+    (hi : i ≤ s.dim) (hj : j ≤ s.dim) (h1 : 1 ≤ d) (h2 : d ≤ s.size) :
+    s.rPartial i j d = s.view.r i j d ∧ s.rSimple i j d = s.view.r i j d ∧
+    s.view.r i j d = s.dset.viewSimple.r i j d ∧ s.view.r i j d = s.dset.viewPartial.r i j d := by
+  have := h.rPartial_eq_generic hi hj h1 h2
+  refine ⟨this, this, rfl, ?_⟩
+  rw [h.set.viewPartial_eq_viewSimple]; rfl
+
+theorem ex2_validSym : ValidSym (DSymData.ofSimple ex2) := ValidSym.ofSimple ex2_valid ex2_far
+
+example : ValidSym (DSymData.ofSimple ex2) ∧ (1 ≤ (DSymData.ofSimple ex2).dim ∧ 1 ≤ (DSymData.ofSimple ex2).size) :=
+  ⟨ex2_validSym, by decide⟩
+
+/-- On a valid symbol no in-range query panics or is undefined: `r ∈ 1..size`, `v` is the stored
+    branching entry, `m = r·v`. -/
+theorem queries_total (s : DSymData) (h : ValidSym s) (i j d : Nat)
+    (hi : i ≤ s.dim) (hj : j ≤ s.dim) (h1 : 1 ≤ d) (h2 : d ≤ s.size) :
+    ∃ a b, 1 ≤ a ∧ a ≤ s.size ∧ s.rPartial i j d = .ok (some a) ∧ s.vPartial i j d = .ok (some b) ∧
+      s.mPartial i j d = .ok (some (a * b)) := by
+  obtain ⟨a, ha1, ha2, ha⟩ := h.rPartial_some hi hj h1 h2
+  obtain ⟨b, hb⟩ := h.vPartial_some hi hj h1 h2
+  exact ⟨a, b, ha1, ha2, ha, hb, DSymData.mOf_some ha hb⟩
+
+example : ValidSym (DSymData.ofSimple ex2) := ex2_validSym
+
+/-- `r`, `v`, `m` are constant along `op i` and `op j`, hence on (i,j)-orbits. -/
+theorem r_v_m_const_on_orbit (s : DSymData) (h : ValidSym s) (i j d : Nat)
+    (hi : i ≤ s.dim) (hj : j ≤ s.dim) (h1 : 1 ≤ d) (h2 : d ≤ s.size) :
+    (s.rPartial i j (s.dset.opU i d) = s.rPartial i j d ∧ s.rPartial i j (s.dset.opU j d) = s.rPartial i j d) ∧
+    (s.vPartial i j (s.dset.opU i d) = s.vPartial i j d ∧ s.vPartial i j (s.dset.opU j d) = s.vPartial i j d) ∧
+    (s.mPartial i j (s.dset.opU i d) = s.mPartial i j d ∧ s.mPartial i j (s.dset.opU j d) = s.mPartial i j d) :=
+  h.const_on_orbit hi hj h1 h2
+
+example : ValidSym (DSymData.ofSimple ex2) := ex2_validSym
+
+/-- validity is what the library's constructors establish: `From<SimpleDSet>` on a valid set with
+    commuting far operations, and it is preserved by `set_v` -/
+theorem validSym_constructors (ds : DSetData) (h : ValidSet ds) (hf : FarCommute ds) :
+    ValidSym (DSymData.ofSimple ds) ∧
+    ∀ s t i d v, ValidSym s → s.setV i d v = .ok t → ValidSym t :=
+  ⟨ValidSym.ofSimple h hf, fun _ _ _ _ _ hs ht => hs.setV ht⟩
+
+example : ValidSet ex2 ∧ FarCommute ex2 := ⟨ex2_valid, ex2_far⟩
 
 end DSymVerif.C02
